@@ -20,6 +20,7 @@ MUTANTS = [
     ("printer-right-assoc-parens", "Printer.v", "DR => addsub k && addsub pk", "DR => false", "C04", "a - (b - c) without parentheses"),
     ("printer-pad", "Printer.v", "repeat 48%N (n - length l) ++ l", "repeat 48%N (min 1 (n - length l)) ++ l", "C04", "the old padding bug: 0.007 as 0.07"),
     ("sgn-zero", "Num.v", "else if nlt (NInt 0) a then NInt 1 else NInt 0.", "else if nlt (NInt 0) a then NInt 1 else NInt 1.", "C05", "sgn(0) = 1"),
+    ("abs-negative", "Num.v", "Definition nabs (a:num) : num := if nlt a (NInt 0) then nneg a else a.", "Definition nabs (a:num) : num := a.", "C05", "abs of a negative number left negative"),
     ("eval-default", "Eval.v", "| Var v => match rho v with Some n => EOk n | None => EValueError end", "| Var v => match rho v with Some n => EOk n | None => EOk (NInt 0) end", "C05", "missing variable defaults to 0"),
     ("term-neg-coef", "Terms.v", "| PNeg => [nneg c]", "| PNeg => [c]", "C16", "coefficient under a negation not negated"),
     ("terms-root-mul", "Terms.v", "(if is_mul_e root then [[]] else [])", "([])", "C16", "get_terms forgets a multiply root"),
